@@ -174,6 +174,23 @@ for _i, _p in enumerate(PATTERNS):
        out='other patterns; longer strings; code points outside 48..100')(_mk_regex_ob(_p))
 
 
+WIDE = ['1234567890123456789012345678', '123456789012345678901234567.8', '99999999999999999999999999.99', '1E+27', '1E+30',
+        '-1234567890123456789012345678', '0.001', '12345678901234567890123456789012345']
+
+
+@ob('decimal-places-wide', marks=['accept', 'reject'], budget=(40, 100),
+    bounds='Rule[Decimal](decimal_places=d), d in 0..3 picked, value from %d literals with 26..35 integer digits (where the default '
+           'decimal context is too narrow to complete the value to d places): accepted exactly when the value has at most d places, '
+           'result equal to the input, isinstance agrees' % len(WIDE))
+def decimal_places_wide(V):
+    d = V.pick('d', [0, 1, 2, 3])
+    x = Decimal(V.pick('lit', WIDE))
+    ex = x.as_tuple()[2]
+    ndec = -ex if ex < 0 else 0
+    T = Rule.annotate(Decimal, constraints={'decimal_places': d})
+    verdicts(V, T, x, ndec <= d, 'decimal-places-wide', lambda: 'decimal_places=%r x=%r' % (d, x))
+
+
 # ------------------------------------------------------------------ constraints inherited from several bases
 class _Small(int, Rule):
     le = 10
@@ -366,6 +383,31 @@ def multiple_of(V):
         return
     expect = True if x % d == 0 else False
     verdicts(V, T, x, expect, 'multiple_of', lambda: 'multiple_of=%r x=%r' % (d, x))
+
+
+MIXED_DIV = [(Decimal, 0.5), (Decimal, 2), (Decimal, Decimal('0.25')), (float, 0.5), (float, 2), (int, 2)]
+MIXED_VAL = ['1.5', '1.25', '3', '0', '-2.5', '0.1', '1E+2']
+
+
+@ob('multiple-of/mixed-types', marks=['accept', 'reject'], budget=(40, 100),
+    bounds='Rule[T](multiple_of=d) for (T, d) in %r, value T(lit) for lit in %r: accepted exactly when the remainder is zero '
+           '(computed exactly in Decimal for Decimal sources, with the float remainder for float sources)' % (
+               [(t.__name__, d) for t, d in MIXED_DIV], MIXED_VAL))
+def multiple_of_mixed(V):
+    i = V.pick('td', list(range(len(MIXED_DIV))))
+    t, d = MIXED_DIV[i]
+    lit = V.pick('lit', MIXED_VAL)
+    if t is int and ('.' in lit or 'E' in lit):
+        return
+    x = t(lit)
+    T = declare(Rule.annotate, t, constraints={'multiple_of': d})
+    if T is None:
+        return
+    if t is Decimal:
+        expect = x % Decimal(str(d)) == 0
+    else:
+        expect = x % d == 0
+    verdicts(V, T, x, True if expect else False, 'multiple_of:mixed', lambda: 'Rule[%s](multiple_of=%r) x=%r' % (t.__name__, d, x))
 
 
 # ------------------------------------------------------------------ (h) unique_items
